@@ -223,7 +223,8 @@ def write_if_changed(path, content):
 
 def gen_coqproject():
     files = [os.path.relpath(p, COQ) for p in coq_sources()
-             if "/Cases/" not in p and "/Extract/" not in p]
+             if "/Cases/" not in p and "/Extract/" not in p and os.path.dirname(os.path.relpath(p, COQ)) != ""]
+    # (files directly under coq/ are scratch files of bin/coqgoal and the like: never part of the project)
     content = "-Q . Naga\n-arg -w -arg -notation-overridden,-deprecated-hint-without-locality,-deprecated-instance-without-locality\n" + "\n".join(files) + "\n"
     changed = write_if_changed(os.path.join(COQ, "_CoqProject"), content)
     if changed or not os.path.exists(os.path.join(COQ, "Makefile")):
